@@ -46,6 +46,21 @@ var altSchemas = map[string][]mCol{
 // seeds are scripted set-ups producing interesting initial states.
 var histSeeds = map[string]func(w *world) *world{
 	"empty": func(w *world) *world { return w },
+	// t1 one row short of a root split, next to a table whose 2720 long rows (340 statements) have grown the log
+	// beyond one megabyte: whatever an engine does about a log of that size happens during the statements that follow
+	"t1x8+long-log": func(w *world) *world {
+		saved := worldFuel
+		worldFuel = 4000000
+		defer func() { worldFuel = saved }()
+		ok := w.do(mkCreate("t1", worldSchemas["t1"])) && w.do(mkInsert(w.model, "t1", 8, false)) && w.do(mkCreate("t2", worldSchemas["t2"]))
+		for i := 0; ok && i < 340; i++ {
+			ok = w.do(mkInsert(w.model, "t2", 8, true))
+			if ok && i%40 == 39 {
+				ok = w.tick()
+			}
+		}
+		return okw(w, ok)
+	},
 	// one table, one row short of a root split
 	"t1x8": func(w *world) *world {
 		return okw(w, w.do(mkCreate("t1", worldSchemas["t1"])) && w.do(mkInsert(w.model, "t1", 8, false)))
